@@ -9,7 +9,7 @@ set -u
 SEED="$(readlink -f "$1")"; shift
 export GOFLAGS=-mod=mod GOPROXY=off GOSUMDB=off GOTOOLCHAIN=local
 D=$(mktemp -d /tmp/sc-XXXXXX)
-trap 'rm -rf "$D"' EXIT
+trap 'rm -rf "$D" "/verif/.alt/$(echo "$D/gtfs" | md5sum | cut -c1-10)"' EXIT
 cp -r /repo "$D/gtfs"; rm -rf "$D/gtfs/.git/worktrees"
 cd "$D/gtfs" || exit 2
 mkdir -p seeded && cp "$SEED/demo_test.go" seeded/demo_test.go
